@@ -307,9 +307,9 @@ func GoPackageOf(file *ir.File) (importPath, name string) {
 			return gp[:i], gp[i+1:]
 		}
 		if i := strings.LastIndex(gp, "/"); i >= 0 {
-			return gp, gp[i+1:]
+			return gp, cleanPkgName(gp[i+1:])
 		}
-		return gp, gp
+		return gp, cleanPkgName(gp)
 	}
 	if file.Package != "" {
 		return "", strings.Map(func(r rune) rune {
@@ -335,4 +335,19 @@ func MarshalRequest(req *plugin.CodeGeneratorRequest) []byte {
 		panic(fmt.Sprintf("marshal request: %v", err))
 	}
 	return b
+}
+
+// cleanPkgName turns the last element of an import path into a Go package name the way gogo does:
+// characters that cannot be part of an identifier become underscores, a leading digit gets one in front.
+func cleanPkgName(n string) string {
+	n = strings.Map(func(r rune) rune {
+		if r == '_' || r >= 'a' && r <= 'z' || r >= 'A' && r <= 'Z' || r >= '0' && r <= '9' {
+			return r
+		}
+		return '_'
+	}, n)
+	if n != "" && n[0] >= '0' && n[0] <= '9' {
+		n = "_" + n
+	}
+	return n
 }
